@@ -88,6 +88,16 @@ def _apalache_quorum(ctx):
     shutil.rmtree(d, ignore_errors=True)
 
 
+def _trace_retry(ctx, *a, **kw):
+    """tlc_trace, repeated once when TLC produced no verdict at all (e.g. the JVM was killed from outside)."""
+    ok, res = ctx.tlc_trace(*a, **kw)
+    if not ok and not res.get("violated"):
+        vlib.log("trace validation produced no verdict, retrying once")
+        ctx.tlc_runs.pop()
+        ok, res = ctx.tlc_trace(*a, **kw)
+    return ok, res
+
+
 def _selftest(ctx, path):
     """Binding self-test: a trace with ONE corrupted output field must be rejected by TLC."""
     with open(path) as f:
@@ -187,7 +197,7 @@ def run(ctx):
                 raise vlib.Broken("adversarial engine wrote no trace for shape " + name)
             with open(path) as f:
                 nev = sum(1 for _ in f)
-            ok, tres = ctx.tlc_trace("consensus", "MCTendermintTrace.tla", "Tendermint_trace%s.cfg" % name[1:],
+            ok, tres = _trace_retry(ctx, "consensus", "MCTendermintTrace.tla", "Tendermint_trace%s.cfg" % name[1:],
                                      path, timeout=1500)
             ntr = int(res["stats"].get("traced_runs_" + name, 0))
             if ok:
